@@ -411,6 +411,11 @@ fn main() {
                 }
             }
 
+            // the residual code starts in a fresh block: the trailing one when the
+            // pre-executed prefix ended with an area command, a new one otherwise
+            if !codes.last().unwrap().is_empty() {
+                codes.push(Vec::new());
+            }
             if opt {
                 for (a, b) in point {
                     res.push_str(&*format!(
@@ -423,11 +428,8 @@ fn main() {
                 res.push_str(&*format!(
                     "
     state = {};",
-                    codes.len(),
+                    codes.len() - 1,
                 ));
-            }
-            if !codes.last().unwrap().is_empty() {
-                codes.push(Vec::new());
             }
         }
 
